@@ -12,6 +12,7 @@ an arbitrary list is a schedule.
 -/
 import ConfModel.Lemmas.ClientRunner
 import ConfModel.Lemmas.ClientWait
+import ConfModel.Lemmas.Delimited
 namespace ConfModel.Props.C10
 open ConfModel.ClientRunner ConfModel.ClientRunner.Spec
 
@@ -238,6 +239,45 @@ theorem steps_terminate (names : Nat → Name) (ids : List Nat) (hn : ids.Nodup)
 theorem wait_returns (s : State) (ht : Terminal s) : waitEnabled s = true := by
   simp [waitEnabled, ht.1]
 
+/-! ### a garbled length prefix is a failure of the stream like any other — never the end of the runner -/
+
+/-- **Top bit set.**  Whatever the client writes where the reader expects a length prefix: if the
+first byte is ≥ 0x80 (a UTF-8 byte-order mark, non-ASCII or UTF-16 text, a check mark, 0x80000000,
+0xffffffff, binary noise) the reader at the client's call site (limit 16 MB) reports "too large"
+with the unsigned big-endian value of the four bytes — a value the reader goroutine hands to its
+shutdown sequence (`rRecvBad`), having taken exactly those four bytes and allocated nothing but the
+prefix buffer, however the bytes are split over reads and whatever follows.  (The size is never
+negative: C09 `prefix_size_total`.) -/
+theorem garbled_prefix_is_a_stream_failure (b0 b1 b2 b3 : UInt8) (hb : 128 ≤ b0.toNat)
+    (rest : Delimited.Bytes) (caps : List Nat) (e : Delimited.Ending) :
+    ∃ caps', Delimited.readAt .client ⟨b0 :: b1 :: b2 :: b3 :: rest, caps, e⟩ =
+      ⟨.tooLarge (Delimited.be32 [b0, b1, b2, b3]), ⟨rest, caps', e⟩, [4]⟩ := by
+  apply Delimited.readMessage_tooLarge Delimited.Site.client.limit (b0 :: b1 :: b2 :: b3 :: rest) caps e (by simp)
+  simp only [Delimited.Site.limit, Delimited.be32, List.foldl_cons, List.foldl_nil, List.take_succ_cons, List.take_zero]
+  omega
+
+/-- **… and such a failure settles everything.**  In any reachable state in which the reader is
+waiting for the next message and no `sendRequest` is in progress (any history: any requests sent,
+any answers received so far, the failing bytes at any position of the stream), the reader's shutdown
+sequence runs through without waiting for anybody: the state is terminal, every accepted request
+has exactly one callback (its own response if it was answered before, an error otherwise), a refused
+one none, `c.err` is set (later sends are refused: `after_failure_refused`), the client was aborted
+and `isRunning()` is false — with no hypothesis on the client process. -/
+theorem stream_failure_settles (names : Nat → Name) (evs : List Event)
+    (hr : (run names init evs).rpc = .reading)
+    (hq : ∀ i, (run names init evs).spc i = .idle ∨ ∃ r, (run names init evs).spc i = .ret r) :
+    let s' := run names init (evs ++ failSeq)
+    Terminal s' ∧ isRunning s' = false ∧ s'.aborted = true ∧ s'.err ≠ none ∧ waitEnabled s' = true ∧
+      ∀ i, reqOK (names i) (retOf (s'.spc i)) (cbsOf s' i) = true := by
+  intro s'
+  have hst := failSeq_state names _ (reachable_inv names evs) hr hq
+  have hs' : s' = run names (run names init evs) failSeq := run_append names evs failSeq init
+  rw [← hs'] at hst
+  obtain ⟨hd, hpc, ht, ha, he⟩ := hst
+  have hterm : Terminal s' := ⟨hd, fun i => by rw [hpc]; exact hq i⟩
+  refine ⟨hterm, by simp [isRunning, ht], ha, ?_, by simp [waitEnabled, hd], fun i => exactly_once names (evs ++ failSeq) i hterm⟩
+  rw [he]; cases (run names init evs).err <;> simp [casErr]
+
 /-! ### waiting for completion returns — whatever the client process does
 
 `no_deadlock` above is relative to the process having exited.  `waitForResponses` itself must not
@@ -395,6 +435,17 @@ example : let s := run (fun _ => 5) init [.sStart 0, .sLock 0, .sRegister 0, .rR
 example : let s := run (fun _ => 5) init [.sStart 0, .sLock 0, .sRegister 0, .pExit 0,
       .sWriteFail 0, .sSetErr 0, .rRecvEOF, .rCloseSend, .rDrain, .rDone, .sStart 1]
     s.rpc = .done ∧ s.spc 0 = .ret (.err .closed) ∧ cbsOf s 0 = [] ∧ s.spc 1 = .ret (.err .closed) := by decide
+
+/-- `garbled_prefix_is_a_stream_failure` / `stream_failure_settles`: a UTF-8 byte-order mark where the
+second response should start; two requests accepted, the first answered: its own response, the
+second an error, terminal, not running -/
+example : 128 ≤ (0xef : UInt8).toNat ∧
+    (Delimited.readAt .client ⟨[0xef, 0xbb, 0xbf, 0x4c, 0x69], [1, 1, 1, 1], .eofSeparate⟩).res = .tooLarge 4022058828 ∧
+    (Delimited.readAt .client ⟨[0xff, 0xff, 0xff, 0xff], [], .stall⟩).res = .tooLarge 4294967295 := by decide
+example : let evs := demoFail.take 11
+    (run demoNames init evs).rpc = .reading ∧ (run demoNames init evs).spc 0 = .ret .ok ∧ (run demoNames init evs).spc 1 = .ret .ok ∧
+    cbsOf (run demoNames init (evs ++ failSeq)) 0 = [none] ∧ cbsOf (run demoNames init (evs ++ failSeq)) 1 = [some 11] ∧
+    (run demoNames init (evs ++ failSeq)).rpc = .done ∧ isRunning (run demoNames init (evs ++ failSeq)) = false := by decide
 
 /-- the hypotheses of `wait_never_left_waiting` / `wait_returns_without_exit` are satisfiable: the
 reader has finished, the client never ends; for both kinds of process seven own steps at most lead
